@@ -115,7 +115,8 @@ fn check_alloc(what: &str) -> Result<(), String> {
 fn bfs(cfg: &SorterCfg, growth_cap: usize, max_states: usize, deadline: &Deadline, acc: &mut Acc) -> (usize, usize, bool) {
     let t = cfg.min_memory.unwrap();
     let mut seen: HashMap<SorterState, usize> = HashMap::new();
-    let mut hist: Vec<(Vec<usize>, SorterState)> = Vec::new();
+    // histories are stored compactly (sizes fit in u32)
+    let mut hist: Vec<(Vec<u32>, SorterState)> = Vec::new();
     let s0 = match run_sizes(cfg, &[], false) {
         Ok(s) => s,
         Err(e) => {
@@ -138,10 +139,13 @@ fn bfs(cfg: &SorterCfg, growth_cap: usize, max_states: usize, deadline: &Deadlin
             closed = false;
             break;
         }
-        let (h, st) = hist[head].clone();
+        let (hc, st) = hist[head].clone();
+        let h: Vec<usize> = hc.iter().map(|x| *x as usize).collect();
         for sz in menu(&st, t, growth_cap) {
             let mut h2 = h.clone();
             h2.push(sz);
+            let mut hc2 = hc.clone();
+            hc2.push(sz as u32);
             transitions += 1;
             let live_before = calloc::live();
             // once to learn the successor state, once more with the finish (final flush + merge)
@@ -164,7 +168,7 @@ fn bfs(cfg: &SorterCfg, growth_cap: usize, max_states: usize, deadline: &Deadlin
                     acc.max("buffer_len", s2.buffer_len as u64);
                     if !seen.contains_key(&s2) {
                         seen.insert(s2, hist.len());
-                        hist.push((h2, s2));
+                        hist.push((hc2, s2));
                     }
                 }
                 Err(msg) => {
@@ -260,7 +264,9 @@ pub fn native_main(tier: Tier) {
         Tier::Quick => &[64, 70],
         Tier::Thorough => &[64, 70, 250, 256],
     };
-    let growth_cap = tier.pick(2usize, 8);
+    // growth symbols are disabled once the buffer exceeds cap x T: 8 for the small budgets in the
+    // thorough tier (closes at a few hundred thousand states), 2 otherwise
+    let cap_of = |t: usize| if tier == Tier::Thorough && t <= 70 { 8usize } else { 2 };
     let mut cfgs = Vec::new();
     for &t in ts {
         for realloc in [true, false] {
@@ -279,7 +285,8 @@ pub fn native_main(tier: Tier) {
     }
     let mut acc = vlib::report::par_for(cfgs.len(), 1, &deadline, |i, acc| {
         let cfg = &cfgs[i];
-        let (states, transitions, closed) = bfs(cfg, growth_cap, tier.pick(200_000, 3_000_000), &deadline, acc);
+        let growth_cap = cap_of(cfg.min_memory.unwrap());
+        let (states, transitions, closed) = bfs(cfg, growth_cap, tier.pick(200_000, 1_500_000), &deadline, acc);
         acc.states += states as u64;
         acc.transitions += transitions as u64;
         acc.evaluations += transitions as u64;
@@ -291,7 +298,8 @@ pub fn native_main(tier: Tier) {
         acc.samples.push(json!({"part": "native checked allocator", "budget": cfg.min_memory, "allow_realloc": cfg.allow_realloc, "initial": cfg.initial,
             "max_nb_chunks": cfg.max_nb_chunks, "states": states, "transitions": transitions, "growth_symbols_disabled_above_buffer_len": growth_cap * cfg.min_memory.unwrap(), "closed": closed}));
     });
-    acc.count("native_growth_cap_factor", growth_cap as u64);
+    acc.count("native_growth_cap_factor_small_budgets", cap_of(64) as u64);
+    acc.count("native_growth_cap_factor_large_budgets", cap_of(256) as u64);
     read_paths(&mut acc);
     acc.count("native_total_allocations_checked", calloc::report().total_allocs);
     if calloc::errors_total() > 0 && acc.violations.is_empty() {
@@ -474,8 +482,8 @@ pub fn run(tier: Tier) -> i32 {
     rep.acc.count("miri_scenario_runs", miri_runs);
     let capped = rep.acc.counters.get("native_configurations_capped").copied().unwrap_or(0) > 0;
     rep.set("exhaustive", json!(!capped));
-    rep.set("rule", json!("(a) native, checking global allocator (guard bands verified on free, dealloc layout must equal alloc layout, freed memory poisoned, per-scenario leak accounting) + overflow checks + debug assertions: closure BFS over the real sorter's bookkeeping states with a state-relative size menu {0, 1, exactly the remaining space, one byte more, larger than the buffer (one doubling), larger than twice the buffer (several doublings)} for both reallocation policies, growth symbols disabled once the buffer exceeds the cap printed in counters.native_growth_cap_factor x T; every transition replays the history on a fresh sorter, finishes it and compares the output with the model; plus read-path (scan/seek/range/prefix, every codec) and merge scenarios with results compared to the model; (b) the same kind of size sequences and read-path scenarios executed under Miri (Stacked Borrows, leak check) in 16 partitions; distinct_nontrivial = native configurations + Miri scenario runs"));
-    rep.set("bound", json!({"native": "closure below the growth cap (see samples and counters.native_growth_cap_factor)", "miri_partitions": parts}));
+    rep.set("rule", json!("(a) native, checking global allocator (guard bands verified on free, dealloc layout must equal alloc layout, freed memory poisoned, per-scenario leak accounting) + overflow checks + debug assertions: closure BFS over the real sorter's bookkeeping states with a state-relative size menu {0, 1, exactly the remaining space, one byte more, larger than the buffer (one doubling), larger than twice the buffer (several doublings)} for both reallocation policies, growth symbols disabled once the buffer exceeds the cap printed in the caps in counters.native_growth_cap_factor_* x T; every transition replays the history on a fresh sorter, finishes it and compares the output with the model; plus read-path (scan/seek/range/prefix, every codec) and merge scenarios with results compared to the model; (b) the same kind of size sequences and read-path scenarios executed under Miri (Stacked Borrows, leak check) in 16 partitions; distinct_nontrivial = native configurations + Miri scenario runs"));
+    rep.set("bound", json!({"native": "closure below the growth cap (see samples and counters.native_growth_cap_factor_*)", "miri_partitions": parts}));
     rep.assume("Miri's verdict is per execution: the claim is 'for every enumerated execution'; zstd (FFI) is not run under Miri");
     rep.assume("the native allocator cannot see out-of-bounds reads; those are Miri's part");
     rep.finish()
